@@ -150,6 +150,8 @@ func c02ConsumerSorts(fn *types.Func, arg int) string {
 }
 
 func runC02(c *Ctx) {
+	c02EnumOrder(c)
+	c02BoundedAppend(c, c.P.ModulePkgs())
 	p := c.P
 	sorterMemo := map[*types.Func]bool{}
 	moduleSortFunc = func(fn *types.Func) bool {
